@@ -6,11 +6,13 @@ operator sweep.  A difference is shrunk (sub-filters, entities, fields) and clas
 declarative semantics (Spec.v): wrong ids / panic on a filter = VIOLATION with the minimal replay."""
 import json
 import os
+import struct
 
 import vlib
 
 PID = "C01"
-FILES = ["theories/Properties/C01.v", "theories/Properties/C10Typer.v", "theories/Examples/C01Examples.v"]
+FILES = ["theories/Properties/C01.v", "theories/Properties/C10Typer.v", "theories/Examples/C01Examples.v",
+         "theories/Examples/C01FmtFloat.v"]
 
 
 def unhex(h):
@@ -143,6 +145,30 @@ def subterms(t):
     return []
 
 
+def lit_class(l):
+    """literal kind, refined by the lexical classes the engine has to decode / convert specially:
+    Sesc = string literal whose body needs escape sequences (quote, backslash, control character),
+    Fext = float literal whose magnitude is outside [1e-4, 1e21) (incl. integers beyond int64)"""
+    k = l[0]
+    if k == "S":
+        b = unhex(l[1])
+        if any(ch in (0x22, 0x5c) or ch < 0x20 for ch in b):
+            return "Sesc"
+    if k == "F":
+        v = abs(struct.unpack(">d", bytes.fromhex(l[1]))[0])
+        if v != 0 and not (1e-4 <= v < 1e21):
+            return "Fext"
+    return k
+
+
+def arr_class(ak, arr):
+    if ak == "AS" and any(lit_class(("S", x)) == "Sesc" for x in arr):
+        return "ASesc"
+    if ak == "AN" and any(lit_class(x) == "Fext" for x in arr):
+        return "ANext"
+    return ak
+
+
 def features(t):
     """(lhs shape, operator, literal kind) of the first atom of a shrunk filter"""
     k = t[0]
@@ -151,9 +177,9 @@ def features(t):
     if k in ("not", "and", "or"):
         return features(t[1])
     if k == "bin":
-        return (lhs_shape(t[1]), t[2], t[3][0])
+        return (lhs_shape(t[1]), t[2], lit_class(t[3]))
     if k == "in":
-        return (lhs_shape(t[2]), "notin" if t[1] == "1" else "in", t[3])
+        return (lhs_shape(t[2]), "notin" if t[1] == "1" else "in", arr_class(t[3], t[4]))
     if k == "btw":
         return (lhs_shape(t[2]), "notbetween" if t[1] == "1" else "between", t[3][0] + t[4][0])
     if k == "empty":
@@ -402,6 +428,17 @@ def replace_subquery(t, f):
     return out
 
 
+def diff_ids(impl, modl):
+    """ids on which the implementation and the documented semantics disagree (hex), [] when not comparable"""
+    fi, fm = impl.split(), modl.split()
+    if len(fi) < 4 or fi[1] != "ok" or len(fm) < 3:
+        return []
+    sp = fm[4] if fm[1] == "ok" and len(fm) > 4 else fm[2]
+    a = set(x for x in fi[2].split(",") if x != "-")
+    b = set(x for x in sp.split(",") if x != "-")
+    return sorted(a ^ b)
+
+
 def shrink(rn, sline, dline, store, t, kind, text_of):
     """greedy shrinking of (dataset, filter) keeping (or strengthening) the kind of verdict"""
     def fails(dl, tt):
@@ -431,8 +468,24 @@ def shrink(rn, sline, dline, store, t, kind, text_of):
                 t = cand
                 changed = True
                 break
-    # dataset: drop entities, then fields and sets
+    # dataset: first try to keep only an entity of the queried store on which the two sides disagree
     stores = parse_dataset(dline.split()[1:])
+    try:
+        si0 = int(store)
+        impl0, modl0 = rn.run([sline, dline, q_line(store, t, text_of)])
+        dids = diff_ids(impl0[-1], modl0[-1])
+        for keep in ([dids[:1], dids] if len(dids) > 1 else [dids]):
+            if not keep or len(stores[si0]) <= len(keep):
+                continue
+            cand = [list(x) for x in stores]
+            cand[si0] = [e for e in stores[si0] if e[0] in keep]
+            dl = dataset_line(cand)
+            if try_(dl, t):
+                stores, dline = cand, dl
+                break
+    except Exception:
+        pass
+    # drop entities, then fields, sets and set elements
     for si in range(len(stores)):
         i = 0
         while i < len(stores[si]):
@@ -462,6 +515,23 @@ def shrink(rn, sline, dline, store, t, kind, text_of):
                         dline = dl
                     else:
                         i += 1
+            j = 0
+            while j < len(stores[si][ei][2]):
+                key, els = stores[si][ei][2][j]
+                i = 0
+                while i < len(els) and len(els) > 1:
+                    cand = [list(x) for x in stores]
+                    eid, fields, sets = stores[si][ei]
+                    nsets = list(sets)
+                    nsets[j] = (key, els[:i] + els[i + 1:])
+                    cand[si][ei] = (eid, fields, nsets)
+                    dl = dataset_line(cand)
+                    if try_(dl, t):
+                        stores, dline = cand, dl
+                        els = nsets[j][1]
+                    else:
+                        i += 1
+                j += 1
     return dline, t
 
 
@@ -472,10 +542,10 @@ def main(argv):
     c.cov["trusted_base"] = [
         "Coq 8.16.1 kernel (coqc; coqchk in the thorough tier); vm_compute in Examples only; no axioms",
         "hand-written models Ast/{Schema,Typer,Eval,Spec,Chain}.v of ast typing/evaluation and boltz symbol resolution, row cursor, set cursors and cursor scanner",
-        "float64 modelled as bit patterns (Ast/F64.v); strconv.FormatFloat and time.MarshalText enter the theorems as Section variables (not modelled; the generator keeps float->string coercions to whole numbers); strings.ToUpper modelled for ASCII",
+        "float64 modelled as bit patterns (Ast/F64.v); strconv.FormatFloat and time.MarshalText enter the theorems as Section variables; the executable model runs Ast/FmtFloat.v (shortest round-trip digits, positional layout) for FormatFloat(v,'f',-1,64), compared with strconv itself on the F lines of every run; time.MarshalText is not modelled (no time -> string coercion is generated); strings.ToUpper modelled for ASCII",
         "bbolt (sorted key iteration, Seek = first key >= target), ANTLR parser, strconv.ParseFloat/ParseInt of literals",
         "extraction (ExtrOcamlBasic only) + extraction/c01_driver.ml + drv_common.ml",
-        "Go harness cmd/storageharness/c01*.go (schema, dataset writer through TypedBucket, generators, printers filter->ZitiQL and filter->term) and this comparison / shrinker",
+        "Go harness cmd/storageharness/c01*.go (schema, dataset writer through TypedBucket, generators, printers filter->ZitiQL (incl. the string-literal escape encoder c01Escape: the model receives the intended bytes) and filter->term) and this comparison / shrinker",
     ]
     c.assumptions = [
         "set buckets hold string elements in bolt key order without duplicates (wf_db; written through SetStringList)",
@@ -528,6 +598,8 @@ def main(argv):
     pending = {}        # provisional key -> up to two (sline, dline, case, impl, model, verdict)
     disagreements = 0
     samples = []
+    nfmt = 0
+    fmt_diffs = []
     for case, i, m in zip(cases, impl, modl):
         if case.startswith("S "):
             sline = case
@@ -535,6 +607,13 @@ def main(argv):
             continue
         if case.startswith("D "):
             dline = case
+            continue
+        if case.startswith("F "):
+            # the modelled number -> string coercion of floats against strconv.FormatFloat(v,'f',-1,64)
+            nfmt += 1
+            if i != m and len(fmt_diffs) < 3:
+                fmt_diffs.append(dict(bits=case.split()[1], strconv=unhex(i.split()[1]).decode("ascii", "replace"),
+                                      model=unhex(m.split()[1]).decode("ascii", "replace")))
             continue
         if not case.startswith("Q "):
             continue
@@ -587,12 +666,19 @@ def main(argv):
             c.violation(key, what, dict(case=lines, filter=unhex(lines[2].split()[2]).decode("utf-8", "replace"), impl=i2, model=m2),
                         no_input=(v2[0] in ("accepted", "rejected", "model")))
 
+    for dff in fmt_diffs:
+        c.violation("C01:model-float-format", "the modelled float -> string coercion (Ast/FmtFloat.v) differs from strconv.FormatFloat(v,'f',-1,64): "
+                    "bits %(bits)s strconv=%(strconv)s model=%(model)s" % dff, dict(correspondence="fmt_float_go vs strconv.FormatFloat", **dff), no_input=True)
+    c.cov["float_format_lines"] = nfmt
     c.cov["evaluations"] = nq
     c.cov["distinct_nontrivial"] = len(distinct)
     c.cov["disagreements_checked"] = disagreements
     c.cov["failure_classes"] = found
     c.cov["rule"] = ("(dataset, filter) pairs: a bounded-exhaustive sweep (every lhs shape x operator x literal kind, in/not in x 4 array kinds, "
                      "between/not between x 3 bound kinds over a dataset where every field is null and non-null and every set has 0..3 elements) + "
+                     "a bounded-exhaustive coercion sweep (every position where a literal is decoded or a number becomes a string: string / fk / int / float / any-typed symbols, "
+                     "string sets, dotted symbols x 10 operators x number literals of every lexical form and magnitude, int64 boundaries, string literals built from the escape "
+                     "characters, strings spelling numbers; in / not in arrays of them; dataset holding the same strings and numbers) + "
                      "seeded random null-heavy datasets (0-12 entities) x filters from a typed grammar-directed generator (nesting <= 4). "
                      "Observables: id lists of QueryIds and IterateIds. Non-trivial: the filter is well-typed and selects at least one entity; "
                      "distinct by (dataset, filter text)")
